@@ -1105,7 +1105,19 @@ func (r *pfRun) lenFact(st *pfState, a lin, op token.Token, b lin) {
 // reaches) and e a constant, a parameter-like SSA value or the length of one
 // (nothing that a store could change).
 func (r *pfRun) ubFact(st *pfState, av ssa.Value, a lin, op token.Token, b lin) {
-	if _, isPhi := an.Strip(av).(*ssa.Phi); !isPhi || a.base == "" || strings.HasPrefix(a.base, "len:") || strings.Contains(b.base, ".") {
+	// the bounded value must be an SSA value that no store can change: a loop variable, a parameter, a call result
+	// (or a conversion of one); its key is then a plain SSA name
+	pure := false
+	switch x := an.Strip(av).(type) {
+	case *ssa.Phi, *ssa.Parameter, *ssa.Call, *ssa.Extract:
+		pure = true
+	case *ssa.Convert:
+		switch x.X.(type) {
+		case *ssa.Phi, *ssa.Parameter, *ssa.Call, *ssa.Extract:
+			pure = true
+		}
+	}
+	if !pure || a.base == "" || strings.HasPrefix(a.base, "len:") || strings.Contains(a.base, ".") || strings.Contains(b.base, ".") {
 		return
 	}
 	var u lin
@@ -1989,6 +2001,15 @@ func (r *pfRun) checkIndex(in ssa.Instruction, X, Index ssa.Value, st *pfState) 
 				}
 				if k, isK := an.IntConst(bo.Y); isK && k <= arr.Len() && len(bo.Block().Succs) == 2 && bo.Block().Succs[0].Dominates(in.Block()) {
 					e.site(r.fn, in, "index", e.key(X)+"["+l.String()+"]", true, "range index over an array of that length", r.ctx)
+					return
+				}
+			}
+		}
+		// a variable index with a known constant upper bound below the array length (`if tag >= len(table) { return }`)
+		if l.base != "" && r.linNonNeg(st, l) {
+			for _, u := range st.ub[l.base] {
+				if u.base == "" && u.off+l.off < arr.Len() {
+					e.site(r.fn, in, "index", e.key(X)+"["+l.String()+"]", true, fmt.Sprintf("%s <= %d < array length %d", l.base, u.off, arr.Len()), r.ctx)
 					return
 				}
 			}
